@@ -4,8 +4,10 @@ TARGETS = [("rel", "%s_agreement_only" % c) for c in ("DDM", "EDDM", "STEPD")] +
           [("fn", SCALAR[c] + ".update") for c in SCALAR] + \
           [("fn", "menelaus.change_detection.adwin:ADWIN.update"), ("fn", "menelaus.concept_drift.adwin_accuracy:ADWINAccuracy.update"),
            ("fn", "menelaus.data_drift.kdq_tree:KdqTreeStreaming.update"), ("fn", "menelaus.data_drift.kdq_tree:KdqTreeBatch.update"),
-           ("fn", "menelaus.data_drift.nndvi:NNDVI.update"),
+           ("fn", "menelaus.data_drift.nndvi:NNDVI.update"), ("fn", "menelaus.data_drift.nndvi:NNDVI.set_reference"), ("fn", "menelaus.data_drift.kdq_tree:KdqTreeBatch.set_reference"),
+           ("fn", "menelaus.data_drift.histogram_density_method:HistogramDensityMethod.set_reference"),
            ("fn", "menelaus.concept_drift.lfr:LinearFourRates.update@tnr")]
+TARGETS_THOROUGH = [("fn", "menelaus.data_drift.histogram_density_method:HistogramDensityMethod.update")]
 LEVEL = "proof"
 ASSUMPTIONS = A_COMMON + [
     "labels are values of an uninterpreted sort with equality only: any other use of a label (arithmetic, truthiness, "
